@@ -65,36 +65,107 @@ type vResult struct {
 	urls     []string
 	err      error
 	side     string // a side effect on what the caller handed in (trusted pool modified …): a failure whatever the verdict
+	again    *vResult // the identical call made once more, when the first one modified the message or the caller's time set
+	againWhy string
 }
 
 // runVerify calls the real verify.TdxQuote on the world's message (cloned) with fresh options.
 func runVerify(w *world.World) vResult {
-	w.Getter.URLs = nil
 	o := &verify.Options{GetCollateral: w.Spec.GC, CheckRevocations: w.Spec.CR, Getter: w.Getter, TrustedRoots: w.Pool()}
 	if w.Spec.Now != nil {
 		n := w.Spec.Now
 		o.Now = vTimeSet(n)
 	}
+	return verifyCall(w, o)
+}
+
+// verifyCall: one call of verify.TdxQuote on a clone of the world's message through the options value `o`, observed.
+// Besides the verdict and the request log it watches what the caller handed in: the message, the time set (pointer and
+// contents) and the trusted pool must come back as they went in.  When the message or a caller-supplied time set does not,
+// the IDENTICAL call is made once more (same message object, same options value): a verdict that differs from the first
+// one is reported as a failing two-call history (`side`), and the second result is kept in `again` for the property oracles.
+func verifyCall(w *world.World, o *verify.Options) vResult {
+	w.Getter.URLs = nil
 	nowBefore := o.Now
-	var err error
-	res, _ := hx.Guard(func() string {
-		var q any = w.Quote
-		if w.Quote != nil {
-			q = proto.Clone(w.Quote).(*pb.QuoteV4)
-		}
-		err = verify.TdxQuote(q, o)
-		if err != nil {
-			return "err"
-		}
-		return "ok"
-	})
+	var nowVal verify.TimeSet
+	if nowBefore != nil {
+		nowVal = *nowBefore
+	}
+	var q *pb.QuoteV4
+	if w.Quote != nil {
+		q = proto.Clone(w.Quote).(*pb.QuoteV4)
+	}
+	call := func() (string, error) {
+		var err error
+		res, _ := hx.Guard(func() string {
+			var a any = w.Quote
+			if q != nil {
+				a = q
+			}
+			err = verify.TdxQuote(a, o)
+			if err != nil {
+				return "err"
+			}
+			return "ok"
+		})
+		return res, err
+	}
+	res, err := call()
 	nowS := "kept"
 	if o.Now != nowBefore {
 		nowS = "set"
 	}
-	joined := world.JoinURLs(w.Getter.URLs)
-	obs := fmt.Sprintf("%s urls=%d:%d now=%s", res, len(w.Getter.URLs), hx.Fnv1a([]byte(joined)), nowS)
-	return vResult{obs, res == "ok", res == "panic", append([]string{}, w.Getter.URLs...), err, vSide(w, o)}
+	urls := append([]string{}, w.Getter.URLs...)
+	joined := world.JoinURLs(urls)
+	obs := fmt.Sprintf("%s urls=%d:%d now=%s", res, len(urls), hx.Fnv1a([]byte(joined)), nowS)
+	vr := vResult{obs: obs, accepted: res == "ok", panicked: res == "panic", urls: urls, err: err, side: vSide(w, o)}
+	if vr.panicked {
+		return vr
+	}
+	changed := ""
+	switch {
+	case q != nil && !proto.Equal(q, w.Quote):
+		changed = "the quote message it was given (" + firstDiff(q, w.Quote) + ")"
+	case nowBefore != nil && o.Now == nil:
+		changed = "the caller's options: Options.Now, which the caller had set, is nil afterwards"
+	case nowBefore != nil && o.Now != nowBefore:
+		changed = "the caller's options: Options.Now points to another time set afterwards"
+	case nowBefore != nil && *nowBefore != nowVal:
+		changed = fmt.Sprintf("the caller's time set (before %v, after %v)", c12ArrS(&nowVal), c12ArrS(nowBefore))
+	}
+	if changed != "" {
+		res2, err2 := call()
+		w.Getter.URLs = urls
+		vr.again = &vResult{obs: res2, accepted: res2 == "ok", panicked: res2 == "panic", err: err2}
+		vr.againWhy = "the first call modified " + changed
+		if res2 != res && vr.side == "" {
+			vr.side = fmt.Sprintf("history of two identical calls (same message object, same options value): the first gives %s, the second %s [%v] — %s", res, res2, err2, vr.againWhy)
+		}
+	}
+	return vr
+}
+
+func c12ArrS(t *verify.TimeSet) string {
+	f := func(x time.Time) string {
+		if x.IsZero() {
+			return "unset"
+		}
+		return x.UTC().Format(time.RFC3339)
+	}
+	return "[" + f(t.PckCertChain) + " " + f(t.TcbInfo) + " " + f(t.QeIdentity) + " " + f(t.PckCrl) + " " + f(t.RootCaCrl) + "]"
+}
+
+// firstDiff names the first field in which two messages differ (wire-level comparison of the top-level parts).
+func firstDiff(a, b *pb.QuoteV4) string {
+	switch {
+	case !proto.Equal(a.GetHeader(), b.GetHeader()):
+		return "header"
+	case !proto.Equal(a.GetTdQuoteBody(), b.GetTdQuoteBody()):
+		return "TD quote body"
+	case !proto.Equal(a.GetSignedData(), b.GetSignedData()):
+		return "signed data"
+	}
+	return "size / extra bytes"
 }
 
 // vTimeSet: the verification times as time.Time values.  The instants are what counts, not how they are written: a third of
